@@ -452,6 +452,9 @@ func main() {
 			for i := 0; i < n; i++ {
 				jobs = append(jobs, job{"isolation", i})
 			}
+			for i := 0; i < 4*n; i++ {
+				jobs = append(jobs, job{"commitfault", i})
+			}
 		}
 	}
 	guards := map[string]bool{}
@@ -475,6 +478,8 @@ func main() {
 			runInject(r, rng, *prop)
 		case "isolation":
 			runIsolation(r, rng)
+		case "commitfault":
+			runCommitFault(r, rng)
 		}
 		rep.Evaluations++
 		rep.Families[j.fam]++
